@@ -109,7 +109,7 @@ def main():
 
     known = load_known()
     targets = [t for t in CT.ORDER if prop in CT.REGISTRY[t].opts.get('properties', [])
-               and not CT.REGISTRY[t].opts.get('abstract')]
+               and not CT.REGISTRY[t].opts.get('abstract') and not CT.REGISTRY[t].opts.get('trusted')]
     targets += ['lemma:' + n for n in CT.LEMMA_ORDER if prop in CT.LEMMAS[n].opts.get('properties', [])]
     canaries = [t for t in CT.ORDER if CT.REGISTRY[t].opts.get('canary')]
     if not targets:
